@@ -1,6 +1,6 @@
 """C07: interrupting or killing ninja never poisons the next build."""
 import random
-import enginecheck as ec, engine
+import enginecheck as ec, engine, histmodel
 from props import engcommon
 LEVEL = 'proof'; TRUSTED = engcommon.TRUSTED_ENGINE + ['crash points: every in-memory-disk mutation, command start, before/after each command write, before/after each fflush of a log file (-Wl,--wrap=fflush), torn variants of each flush; the child process _exits there (stdio buffers lost like SIGKILL)']
 ASSUMPTIONS = engcommon.ASSUMPTIONS_ENGINE + ['a killed command has written each of its outputs completely or not at all (atomic replacement)', 'real signal delivery/timing is exercised only by the real-binary part']
@@ -62,3 +62,6 @@ def run(ctx):
                         'oracles: interrupt cleanup rule, recovery build starts normally, equals the clean build, converges' % (len(bases), len(hists), reached, len(ints)),
                    samples=[{'scenario': h.sid, 'steps': [s.line[:100] for s in h.steps[-3:]]} for h in (hists[:2] + ints[:1])],
                    distribution=dict(crash_points_per_base=npts[:40], crash_scenarios=len(hists), interrupt_scenarios=len(ints), real_binary_watchdog_expiries_not_reproduced=unconfirmed))
+    # the kill / interrupt model (coq/Engine/HistCrashDefs.v, theorems of Properties_C07hist.v) run against the real engine: every
+    # (sampled) crash point of an invocation placed in the model, the state it leaves, the recovery build and its repetition; interrupts
+    histmodel.hook_crash(ctx, 'C07', quick=150, thorough=1200, cap=10, key='hist_model_crash_points')
